@@ -186,8 +186,8 @@ var simProps = map[string]simProp{
 		Floors: []string{"days", "substeps_2", "substeps_3_5", "substeps_6_20", "days_infiltration", "days_evaporation", "days_drain_active", "days_upward_bottom_flux"}},
 		func() []Monitor { return []Monitor{&monC01{}} }},
 	"C02": {checkSpec{Prop: "C02", Level: "exploration", NQuick: 2000, NThorough: 40000,
-		Rule:   "cases = generated projects (>=2 layers, leaching depth = profile bottom, fertiliser/irrigation-N/tillage schedules, drains with shallow groundwater, deposition 0-60) run through the real day loop; the N-balance oracle incl. clamp accounting is evaluated on every N sub-step and day; non-trivial = >30 days and a multi-sub-step or upward-flow day observed",
-		Floors: []string{"days", "n_substeps", "conv_down_down", "conv_up_up", "conv_down_up", "conv_up_down", "days_drain_loss", "days_leaching", "days_uptake", "days_denitrification"}},
+		Rule:   "cases = generated projects (>=2 layers, leaching depth = profile bottom, fertiliser/irrigation-N/tillage schedules, drains with shallow groundwater, deposition 0-60) run through the real day loop; the N-balance oracle incl. clamp accounting is evaluated on every N sub-step and day; on 8 % of the days the real transport routine is also run on a copy of the live state whose top-soil N was mixed as a tillage does it and whose crop demand exceeds the content of some layers (uptake limit engaged) and the same sub-step balance is checked; 12 % of the cases use automatic management; non-trivial = >30 days and a multi-sub-step or upward-flow day observed",
+		Floors: []string{"days", "n_substeps", "conv_down_down", "conv_up_up", "conv_down_up", "conv_up_down", "days_drain_loss", "days_leaching", "days_uptake", "days_denitrification", "kernel_transport_calls", "kernel_uptake_limit_engaged"}},
 		func() []Monitor { return []Monitor{&monC02{}} }},
 	"C06": {checkSpec{Prop: "C06", Level: "exploration", NQuick: 2000, NThorough: 40000,
 		Rule:   "cases = generated projects (all groundwater regimes, droughts, extreme rain, injected nearly dry / nearly full profiles); bounds and finiteness of every float of the run state are checked each day, result files scanned for NaN/Inf; non-trivial = >30 days and a layer at the dryness limit or at field capacity observed",
